@@ -126,6 +126,15 @@ def bounded(ctx):
                     got = sorted((f["type"], tuple(norm_den(f["den"]))) for f in orc["features"] if f["den"] is not None)
                     if want != got:
                         pb.append("features do not denote the mirrored nucleotides on the other strand: %r vs %r" % (got[:2], want[:2]))
+                    # order-sensitive: what each feature spells (its parts in listed order, each on its own strand) is the
+                    # same molecule read from the other side -- the same text -- after one and after two reverse complements
+                    spell0 = sorted((f["id"], f["type"], f["reads"]) for f in ob["features"] if f["den"] is not None)
+                    spell1 = sorted((f["id"], f["type"], f["reads"]) for f in orc["features"] if f["den"] is not None)
+                    spell2 = sorted((f["id"], f["type"], f["reads"]) for f in orr["features"] if f["den"] is not None)
+                    if spell1 != spell0:
+                        pb.append("features no longer spell the same stretch after the reverse complement: %r vs %r" % (spell1[:2], spell0[:2]))
+                    if spell2 != spell0:
+                        pb.append("twice: features spell another stretch: %r vs %r" % (spell2[:2], spell0[:2]))
                     w2 = sorted((f["type"], tuple(norm_den(f["den"]))) for f in ob["features"] if f["den"] is not None)
                     g2 = sorted((f["type"], tuple(norm_den(f["den"]))) for f in orr["features"] if f["den"] is not None)
                     if w2 != g2:
